@@ -30,6 +30,11 @@ package streams
 //@   ensures closer != nil && !old(reportsClosed(closer)) ==> G_closes(closer) == old(G_closes(closer)) + 1   :closes_open
 //@   ensures G_closes(closer) == old(G_closes(closer)) || G_closes(closer) == old(G_closes(closer)) + 1   :at_most_once
 
+
+// ---- SafeConnection
+//@ go func isSafeConnection(c interface{}) bool { _, ok := c.(*SafeConnection); return ok }
+//@ go func asSafeConnection(c interface{}) *SafeConnection { s, _ := c.(*SafeConnection); return s }
+
 //@ func (ns *SafeConnection) Close
 //@   property C19
 //@   safe
@@ -46,12 +51,191 @@ package streams
 //@   pure
 //@   ensures result == ns.closed
 
-//@ go func isSafeConnection(c net.Conn) bool { _, ok := c.(*SafeConnection); return ok }
-//@ go func asSafeConnection(c net.Conn) *SafeConnection { s, _ := c.(*SafeConnection); return s }
-
 //@ func NewSafeConnection
 //@   property C19
 //@   safe
 //@   pure
 //@   ensures isSafeConnection(wrapped) ==> result == asSafeConnection(wrapped)                  :no_double_wrap
 //@   ensures !isSafeConnection(wrapped) ==> result != nil && spec_fresh(result) && !result.closed && result.Conn == wrapped   :fresh_open
+
+// ---- SafeStream
+//@ go func isSafeStream(c interface{}) bool { _, ok := c.(*SafeStream); return ok }
+//@ go func asSafeStream(c interface{}) *SafeStream { s, _ := c.(*SafeStream); return s }
+
+//@ func (ns *SafeStream) Close
+//@   property C19
+//@   safe
+//@   modifies ns.closed, G_closes(ns.ReadWriteCloser), G_isclosed(ns.ReadWriteCloser)
+//@   ensures old(ns.closed) ==> err == nil && G_closes(ns.ReadWriteCloser) == old(G_closes(ns.ReadWriteCloser))      :repeat_is_noop
+//@   ensures G_closes(ns.ReadWriteCloser) == old(G_closes(ns.ReadWriteCloser)) || G_closes(ns.ReadWriteCloser) == old(G_closes(ns.ReadWriteCloser)) + 1  :at_most_once
+//@   ensures !old(ns.closed) && ns.ReadWriteCloser != nil && !old(reportsClosed(ns.ReadWriteCloser)) ==> G_closes(ns.ReadWriteCloser) == old(G_closes(ns.ReadWriteCloser)) + 1   :first_close_closes_inner
+//@   ensures ns.closed                                                                          :closed_after
+//@   ensures ns.ReadWriteCloser == old(ns.ReadWriteCloser)
+
+//@ func (ns *SafeStream) Closed
+//@   property C19
+//@   safe
+//@   pure
+//@   ensures result == ns.closed
+
+//@ func NewSafeStream
+//@   property C19
+//@   safe
+//@   pure
+//@   ensures isSafeStream(wrapped) ==> result == asSafeStream(wrapped)                  :no_double_wrap
+//@   ensures !isSafeStream(wrapped) ==> result != nil && spec_fresh(result) && !result.closed && result.ReadWriteCloser == wrapped   :fresh_open
+
+// ---- SafeReader
+//@ go func isSafeReader(c interface{}) bool { _, ok := c.(*SafeReader); return ok }
+//@ go func asSafeReader(c interface{}) *SafeReader { s, _ := c.(*SafeReader); return s }
+
+//@ func (ns *SafeReader) Close
+//@   property C19
+//@   safe
+//@   modifies ns.closed, G_closes(ns.ReadCloser), G_isclosed(ns.ReadCloser)
+//@   ensures old(ns.closed) ==> err == nil && G_closes(ns.ReadCloser) == old(G_closes(ns.ReadCloser))      :repeat_is_noop
+//@   ensures G_closes(ns.ReadCloser) == old(G_closes(ns.ReadCloser)) || G_closes(ns.ReadCloser) == old(G_closes(ns.ReadCloser)) + 1  :at_most_once
+//@   ensures !old(ns.closed) && ns.ReadCloser != nil && !old(reportsClosed(ns.ReadCloser)) ==> G_closes(ns.ReadCloser) == old(G_closes(ns.ReadCloser)) + 1   :first_close_closes_inner
+//@   ensures ns.closed                                                                          :closed_after
+//@   ensures ns.ReadCloser == old(ns.ReadCloser)
+
+//@ func (ns *SafeReader) Closed
+//@   property C19
+//@   safe
+//@   pure
+//@   ensures result == ns.closed
+
+//@ func NewSafeReader
+//@   property C19
+//@   safe
+//@   pure
+//@   ensures isSafeReader(wrapped) ==> result == asSafeReader(wrapped)                  :no_double_wrap
+//@   ensures !isSafeReader(wrapped) ==> result != nil && spec_fresh(result) && !result.closed && result.ReadCloser == wrapped   :fresh_open
+
+// ---- SafeWriter
+//@ go func isSafeWriter(c interface{}) bool { _, ok := c.(*SafeWriter); return ok }
+//@ go func asSafeWriter(c interface{}) *SafeWriter { s, _ := c.(*SafeWriter); return s }
+
+//@ func (ns *SafeWriter) Close
+//@   property C19
+//@   safe
+//@   modifies ns.closed, G_closes(ns.WriteCloser), G_isclosed(ns.WriteCloser)
+//@   ensures old(ns.closed) ==> err == nil && G_closes(ns.WriteCloser) == old(G_closes(ns.WriteCloser))      :repeat_is_noop
+//@   ensures G_closes(ns.WriteCloser) == old(G_closes(ns.WriteCloser)) || G_closes(ns.WriteCloser) == old(G_closes(ns.WriteCloser)) + 1  :at_most_once
+//@   ensures !old(ns.closed) && ns.WriteCloser != nil && !old(reportsClosed(ns.WriteCloser)) ==> G_closes(ns.WriteCloser) == old(G_closes(ns.WriteCloser)) + 1   :first_close_closes_inner
+//@   ensures ns.closed                                                                          :closed_after
+//@   ensures ns.WriteCloser == old(ns.WriteCloser)
+
+//@ func (ns *SafeWriter) Closed
+//@   property C19
+//@   safe
+//@   pure
+//@   ensures result == ns.closed
+
+//@ func NewSafeWriter
+//@   property C19
+//@   safe
+//@   pure
+//@   ensures isSafeWriter(wrapped) ==> result == asSafeWriter(wrapped)                  :no_double_wrap
+//@   ensures !isSafeWriter(wrapped) ==> result != nil && spec_fresh(result) && !result.closed && result.WriteCloser == wrapped   :fresh_open
+
+// ---- WebsocketTunnelConnection
+//@ func (wstc *WebsocketTunnelConnection) Close
+//@   property C19
+//@   safe
+//@   modifies wstc.closed, G_closes(wstc.Conn), G_isclosed(wstc.Conn)
+//@   ensures old(wstc.closed) ==> err == nil && G_closes(wstc.Conn) == old(G_closes(wstc.Conn))     :repeat_is_noop
+//@   ensures G_closes(wstc.Conn) == old(G_closes(wstc.Conn)) || G_closes(wstc.Conn) == old(G_closes(wstc.Conn)) + 1  :at_most_once
+//@   ensures !old(wstc.closed) && wstc.Conn != nil ==> G_closes(wstc.Conn) == old(G_closes(wstc.Conn)) + 1   :first_close_closes_inner
+//@   ensures wstc.closed                                                                        :closed_after
+
+//@ func (wstc *WebsocketTunnelConnection) Closed
+//@   property C19
+//@   safe
+//@   pure
+//@   ensures result == wstc.closed
+
+//@ func NewWebsocketTunnelConnection
+//@   property C19
+//@   safe
+//@   pure
+//@   ensures result != nil && spec_fresh(result) && !result.closed && result.Conn == conn
+
+// ---- Named wrappers: Close/Closed are the promoted methods of the embedded Safe* wrapper
+//@ func NewNamedConnection
+//@   property C19
+//@   safe
+//@   pure
+//@   ensures result != nil && spec_fresh(result) && isSafeConnection(result.Connection)          :wraps_safe
+//@   ensures isSafeConnection(wrapped) ==> asSafeConnection(result.Connection) == asSafeConnection(wrapped)   :no_double_wrap
+//@   ensures !isSafeConnection(wrapped) ==> !asSafeConnection(result.Connection).closed && asSafeConnection(result.Connection).Conn == wrapped  :fresh_open
+
+//@ func NewNamedStream
+//@   property C19
+//@   safe
+//@   pure
+//@   ensures result != nil && spec_fresh(result) && isSafeStream(result.ReadWriteCloserClosed)   :wraps_safe
+//@   ensures isSafeStream(wrapped) ==> asSafeStream(result.ReadWriteCloserClosed) == asSafeStream(wrapped)   :no_double_wrap
+//@   ensures !isSafeStream(wrapped) ==> !asSafeStream(result.ReadWriteCloserClosed).closed && asSafeStream(result.ReadWriteCloserClosed).ReadWriteCloser == wrapped  :fresh_open
+
+//@ func NewNamedReader
+//@   property C19
+//@   safe
+//@   pure
+//@   ensures result != nil && spec_fresh(result) && isSafeReader(result.ReadCloserClosed)        :wraps_safe
+//@   ensures isSafeReader(wrapped) ==> asSafeReader(result.ReadCloserClosed) == asSafeReader(wrapped)   :no_double_wrap
+//@   ensures !isSafeReader(wrapped) ==> !asSafeReader(result.ReadCloserClosed).closed && asSafeReader(result.ReadCloserClosed).ReadCloser == wrapped  :fresh_open
+
+//@ func NewNamedWriter
+//@   property C19
+//@   safe
+//@   pure
+//@   ensures result != nil && spec_fresh(result) && isSafeWriter(result.WriteCloserClosed)       :wraps_safe
+//@   ensures isSafeWriter(wrapped) ==> asSafeWriter(result.WriteCloserClosed) == asSafeWriter(wrapped)   :no_double_wrap
+//@   ensures !isSafeWriter(wrapped) ==> !asSafeWriter(result.WriteCloserClosed).closed && asSafeWriter(result.WriteCloserClosed).WriteCloser == wrapped  :fresh_open
+
+//@ func NewSimulatedConnection
+//@   property C19
+//@   safe
+//@   pure
+//@   ensures result != nil && spec_fresh(result) && isSafeStream(result.ReadWriteCloserClosed)   :wraps_safe
+//@   ensures isSafeStream(wrapped) ==> asSafeStream(result.ReadWriteCloserClosed) == asSafeStream(wrapped)   :no_double_wrap
+//@   ensures !isSafeStream(wrapped) ==> !asSafeStream(result.ReadWriteCloserClosed).closed && asSafeStream(result.ReadWriteCloserClosed).ReadWriteCloser == wrapped  :fresh_open
+
+//@ func NewStreamConnection
+//@   property C19
+//@   safe
+//@   pure
+//@   ensures result != nil && spec_fresh(result) && isSafeStream(result.ReadWriteCloserClosed)   :wraps_safe
+//@   ensures isSafeStream(wrapped) ==> asSafeStream(result.ReadWriteCloserClosed) == asSafeStream(wrapped)   :no_double_wrap
+//@   ensures !isSafeStream(wrapped) ==> !asSafeStream(result.ReadWriteCloserClosed).closed && asSafeStream(result.ReadWriteCloserClosed).ReadWriteCloser == wrapped  :fresh_open
+
+// ---- reader+writer pair
+
+//@ func NewReadWriteCloser
+//@   property C19
+//@   safe
+//@   pure
+//@   ensures result != nil && spec_fresh(result) && isSafeReader(result.ReadCloserClosed) && isSafeWriter(result.WriteCloserClosed)   :wraps_safe
+//@   ensures !isSafeReader(reader) ==> !asSafeReader(result.ReadCloserClosed).closed && asSafeReader(result.ReadCloserClosed).ReadCloser == reader   :reader_open
+//@   ensures !isSafeWriter(writer) ==> !asSafeWriter(result.WriteCloserClosed).closed && asSafeWriter(result.WriteCloserClosed).WriteCloser == writer  :writer_open
+
+//@ func (sc *ReadWriteCloser) Close
+//@   property C19
+//@   safe
+//@   requires !spec_sameref(sc.ReadCloserClosed, sc.WriteCloserClosed)
+//@   modifies G_closes(sc.ReadCloserClosed), G_isclosed(sc.ReadCloserClosed), G_closes(sc.WriteCloserClosed), G_isclosed(sc.WriteCloserClosed)
+//@   ensures G_closes(sc.ReadCloserClosed) == old(G_closes(sc.ReadCloserClosed)) || G_closes(sc.ReadCloserClosed) == old(G_closes(sc.ReadCloserClosed)) + 1   :reader_at_most_once
+//@   ensures G_closes(sc.WriteCloserClosed) == old(G_closes(sc.WriteCloserClosed)) || G_closes(sc.WriteCloserClosed) == old(G_closes(sc.WriteCloserClosed)) + 1   :writer_at_most_once
+//@   ensures old(G_isclosed(sc.ReadCloserClosed)) ==> G_closes(sc.ReadCloserClosed) == old(G_closes(sc.ReadCloserClosed))    :reader_skip_closed
+//@   ensures old(G_isclosed(sc.WriteCloserClosed)) ==> G_closes(sc.WriteCloserClosed) == old(G_closes(sc.WriteCloserClosed))  :writer_skip_closed
+//@   ensures sc.ReadCloserClosed != nil && !old(G_isclosed(sc.ReadCloserClosed)) ==> G_closes(sc.ReadCloserClosed) == old(G_closes(sc.ReadCloserClosed)) + 1   :reader_closed_once
+//@   ensures sc.WriteCloserClosed != nil && !old(G_isclosed(sc.WriteCloserClosed)) ==> G_closes(sc.WriteCloserClosed) == old(G_closes(sc.WriteCloserClosed)) + 1   :writer_closed_once
+//@   ensures old(G_isclosed(sc.ReadCloserClosed)) && old(G_isclosed(sc.WriteCloserClosed)) ==> err == nil    :repeat_is_noop
+
+//@ func (sc *ReadWriteCloser) Closed
+//@   property C19
+//@   safe
+//@   pure
+//@   requires sc.ReadCloserClosed != nil && sc.WriteCloserClosed != nil
+//@   ensures result == (G_isclosed(sc.ReadCloserClosed) && G_isclosed(sc.WriteCloserClosed))
